@@ -784,7 +784,7 @@ func runPack(c *vp.Child) {
 	}
 
 	// (3) PRNG multi-directive formats
-	n := c.Pick(100000, 1200000) / c.NB
+	n := c.Pick(100000, 2400000) / c.NB
 	maxItems := c.Pick(4, 6)
 	for i := 0; i < n; i++ {
 		f := genFormat(p.r, maxItems)
@@ -921,7 +921,7 @@ func runUnpackData(c *vp.Child) {
 	}
 
 	// (2) PRNG formats on corrupted / truncated / random data
-	n := c.Pick(120000, 1500000) / c.NB
+	n := c.Pick(120000, 3000000) / c.NB
 	maxItems := c.Pick(4, 6)
 	for i := 0; i < n; i++ {
 		f := genFormat(r, maxItems)
